@@ -20,6 +20,13 @@ pub fn cases(tier: Tier) -> u64 {
 }
 
 const JUNK: &[&str] = &["\n§ junk", "\n\u{1}", "\n¤¤ endmodule", "\n\u{7f}x", "\n§"];
+/// Tails that lex but cannot be parsed: the first token can neither begin a description nor continue a complete
+/// one (a colon is never followed by an identifier here, so it is not an end label).  They look like the
+/// beginning of something the last description might want to take in (end label, more ports, another item).
+const JUNK_LEXABLE: &[&str] = &[
+    ": ;", ":", ": )", ": 1 ;", ":\n: ;", ":: ;", ") ;", "] ;", "} ;", ", x ;", "= 1 ;", ". x ;", "1 ;", "\"s\" ;", "+ x ;", "# 1 ;", "? :",
+    "endmodule", "end", "endcase", "endfunction : f", "else ;", "join",
+];
 
 fn run_pp(gram: Gram, src: &str, incomplete: bool) -> Result<Result<(SyntaxTree, String), Error>, LibPanic> {
     // two-step so that the preprocessed text is known
@@ -203,7 +210,13 @@ pub fn run_case(env: &Env, ctx: &mut Ctx, idx: u64) {
                 ctx.violation("strict-vs-incomplete", &sig, &format!("{}{}", m, note), witness(&m));
             }
             // junk suffix leaves the tree unchanged, white space aside
-            let j = *rng.pick(JUNK);
+            let j: String = if rng.chance(1, 2) {
+                rng.pick(JUNK).to_string()
+            } else {
+                ctx.count("junk_lexable", 1);
+                format!("{}{}{}", rng.pick(&["\n", " ", "\t", "\r\n", " /* c */ "]), rng.pick(JUNK_LEXABLE), rng.pick(&["", "\n", " "]))
+            };
+            let j = j.as_str();
             let with_junk = format!("{}{}", src, j);
             match run_pp(gram, &with_junk, true) {
                 Err(_) => ctx.inconclusive("lib_panic"),
